@@ -140,6 +140,8 @@ def run(ctx):
     singles = ["mixedpatch", "cube", "amstrip", "ships"] if ctx.tier == "quick" else ["mixedpatch", "cube", "amstrip", "ships", "mpas"]
     if ctx.tier == "quick":
         _bfs(ctx, "mpas", 1, [()], label="fresh (MPAS source)")
+        # the grid read from a source that ships coordinates and tables: saturated / chunked first, then every event
+        _bfs(ctx, "mpas", 1, _seeds("mpas")[1:], label="seeded (MPAS source)")
     deep = 2 if ctx.tier == "quick" else 3
     for s in singles:
         _bfs(ctx, s, deep, [()], label="fresh")
